@@ -373,6 +373,19 @@ Proof.
   - repeat constructor; cbn; intuition discriminate.
 Qed.
 
+(* ignore_input=True with a Parameter that has no source of its own (a plain Parameter, or FlaskPathParameter - a plain Parameter
+   subclass without any override): def listing(tenant=9, limit=9), Parameter tenant default 7, limit default 4 (a default reaches the body as it is); whatever the
+   caller passes and however (by position, by keyword, mixed, nothing), the body sees the defaults (names: tenant=1, limit=2) *)
+Example C13_ignore_input_hypotheses_satisfiable :
+  let sg := mksig [(1, Some 9); (2, Some 9)] false in
+  let dc := {| d_params := [mkparam 1 [at_most 8] false (Some 7) None; mkparam 2 [plus_one] false (Some 4) None];
+               d_mode := KWARGS_WITH_NONE; d_strict := true; d_ignore_input := true |} in
+  snd (vrun nnone sg no_env dc false {| c_args := []; c_kwargs := [] |}) = FBody [(1, 7); (2, 4)] /\
+  snd (vrun nnone sg no_env dc false {| c_args := [3; 6]; c_kwargs := [] |}) = FBody [(1, 7); (2, 4)] /\
+  snd (vrun nnone sg no_env dc false {| c_args := []; c_kwargs := [(1, 3)] |}) = FBody [(1, 7); (2, 4)] /\
+  snd (vrun nnone sg no_env dc false {| c_args := [3]; c_kwargs := [(2, 6)] |}) = FBody [(1, 7); (2, 4)].
+Proof. repeat split. Qed.
+
 Example C13_declaration_order_hypotheses_satisfiable :
   same_but_params nat (ex_deco [pc; pa; pb] ARGS) (ex_deco [pb; pc; pa] ARGS) /\
   NoDup (map (@p_name nat) (d_params (ex_deco [pc; pa; pb] ARGS))) /\
